@@ -2160,7 +2160,8 @@ def reader_section(tier, seed, mode='all'):
              'rule': 'instances of the generated subclasses of the nine built-in bases, pretty_call objects with 0-3 positional / 0-2 keyword arguments and '
                      'built-in value trees, nested in each other, 30% with comments, limits off, 5 layouts each: the reading of the canonical tokens by the '
                      'reader of Spec/Reader.lean equals what CPython\'s ast makes of the implementation\'s text (calls with their callee, positional and keyword '
-                     'items in order; numbers by literal text), for every layout; non-trivial = values'}
+                     'items in order; numbers by literal text), for every layout; non-trivial = values.  Bare timedeltas (boundary values and random ones, about 30 layouts each incl. depth 2 and 5): '
+                     'readTimedelta of Spec/TdReader.lean on the code tokens of the model stream = eval of the implementation text, which must be an equal timedelta'}
     return stats, mism, fails
 
 
